@@ -672,6 +672,22 @@ Proof.
   pose proof (type_changes_detect l1 c l2 s3 D4 H3). lia.
 Qed.
 
+(* the state in which the type_changes pass starts *)
+Definition before_types (d : delta) (v : value) : st :=
+  do_set_items set_difference (d_srem d)
+    (do_set_items set_union (d_sadd d) (do_values_changed (d_bidir d) (d_val d) (mkSt v [] 0))).
+
+Theorem apply_detects_type_when_reached d v l1 c l2 :
+  d_bidir d = true -> d_type d = l1 ++ c :: l2 ->
+  tc_bad (root (do_type_changes conv true l1 (before_types d v))) c = true ->
+  0 < snd (apply d v).
+Proof.
+  intros B E H. pose proof (errs_after_prefix conv rem_order add_order d v 4) as P.
+  cbn [firstn passes DeltaVerify.passes run_passes fold_left] in P. fold (before_types d v) in P.
+  rewrite B, E in P.
+  pose proof (type_changes_detect_when_reached l1 c l2 (before_types d v) H). lia.
+Qed.
+
 (* the guard of the statements for the initial base, as one boolean: the
    values_changed paths diverge pairwise, the type_changes paths diverge
    pairwise, and every type_changes path diverges from every path written by
